@@ -10,7 +10,7 @@ SPEC = {
     "assumptions": ["process death only (kill -9), the OS survives", "only the state once the server answers the full dump correctly or 30 s passed is judged"],
     "campaigns": [
         {"name": "crash_in_reorg", "run": "^TestCrashInReorg$", "quick": B(2, 6, 900, steps=6, shrinktime="60s"),
-         "thorough": B(25, 8, 3400, steps=10, shrinktime="180s")},
+         "thorough": B(10, 8, 3400, steps=10, shrinktime="180s")},
         {"name": "enumerate_steps", "run": "^TestEnumerateSteps$", "quick": B(1, 10, 900), "thorough": B(1, 8, 3400)},
     ],
     "max_parallel": 18,
